@@ -22,3 +22,7 @@ chk('C11', 'proof',
     'actuator.to_tau is proved equal to the reference actuator model for every actuator-to-dof index map with nu <= 3, nv <= 4 (several actuators per dof, unactuated dofs exactly 0, q_id != qd_id) and for ALL real controls, states, gains, gears, biases and (finite or infinite) ranges; monotonicity and saturation are proved relationally on the real code.',
     'proof is over actuator tables; the MJCF->table mapping in load_model is not proved; reference model transcribed from MuJoCo documentation; floats as reals',
     'contract-based deductive verification: VCs from the jaxpr of to_tau per index map, z3 with an abstraction ladder (min/max as commutative UFs, then exact)', '7 C11')
+chk('C14', 'other',
+    'Hybrid. PROVED: the real validate_model, executed path-exhaustively on a proxy model with symbolic field values over every enumerated structure (njnt<=3, ngeom<=2, nu<=2), rejects each of 16 unsupported-feature predicates wherever the feature sits; the validate_model call dominates every native init (AST); System index helpers are correct for all type strings <= 4 (sampled to 6). BOUNDED stand-in (labelled, not proof): generated MJCF documents through mjcf.loads and the three inits, clean vs one injected feature, and structural agreement of accepted models with MuJoCo.',
+    'load_model (MuJoCo compiler, mjx.put_model) is only exercised by the bounded stand-in; structure sizes bounded as stated; feature predicates are my reading of the property text',
+    'contract-based deductive verification: path-exhaustive symbolic execution of the real Python validator with z3 path conditions; AST dominance; bounded run-time contract checks', '7 C14')
